@@ -8,7 +8,7 @@ from ..engine import Check
 from ..loader import AnalysisError
 from ..program import NotConst
 from ..recon import _own_nodes
-from ..rulelib import conds_sym, func_eval, func_outcomes
+from ..rulelib import self_stores, conds_sym, func_eval, func_outcomes
 
 LEVEL = "other"
 TECHNIQUE = ("static analysis: constant tables against digest sizes, def-use provenance of the MAC comparison operands and "
@@ -21,7 +21,10 @@ EXPLANATION = (
     "than the digest must reach the computed side); every return of _decrypt_hmac lies behind that comparison, whose failing "
     "side raises; PBKDF2 receives hash <- table[pass2key], password <- passphrase, salt, rounds, dklen <- table[cipher]; AES-CBC "
     "is keyed with that key and IV; VMX.unlock_with_phrase updates the visible dictionary only after both stages verified, outside "
-    "any handler; KeySafe.unseal_with_phrase swallows ValueError only and ends in raise. Does NOT decide round-trip equality, "
+    "any handler; KeySafe.unseal_with_phrase swallows ValueError only and ends in raise; the passphrase of the call reaches the KDF "
+    "on every unlock (Pair.unlock_with_phrase returns _decrypt_hmac(KDF(passphrase), data, mac), unseal passes it to each locator, "
+    "VMX.unlock_with_phrase parses the key safe text currently in the dictionary) and no function on the unlock path stores to its "
+    "object, so an attempt cannot be answered from an earlier one. Does NOT decide round-trip equality, "
     "nor AES / HMAC / PBKDF2 themselves."
 )
 ASSUMPTIONS = ["hashlib / hmac / pycryptodome implement the named primitives", "digest sizes: sha1 20 bytes, sha256 32 bytes"]
@@ -197,6 +200,48 @@ def run(chk: Check):
     pkey = chk.prog.cls(REL, "Pair").key
     okp = bool(po) and po[0][3] == S.call(f"{REL}::_decrypt_hmac", [("p", pctx.qual, 1), R.self_attr(pkey, "data"), R.self_attr(pkey, "mac")])
     chk.decide(okp, "K-PROV", "pair-unlock-roles", pctx.func, "Pair._unlock = _decrypt_hmac(key, pair data, pair MAC name)")
-    chk.require("K-PROV", 10)
+    # ---- the passphrase reaches the KDF on every unlock: no remembered result, no remembered key safe ---------------
+    plq = f"{REL}::Pair.unlock_with_phrase"
+    plctx = chk.func(REL, "Pair.unlock_with_phrase")
+    kdf = S.subst(want, {("p", uctx.qual, 1): ("p", plq, 1)}) if hasattr(S, "subst") else _subst(want, ("p", uctx.qual, 1), ("p", plq, 1))
+    want_pl = S.call(f"{REL}::_decrypt_hmac", [kdf, R.self_attr(pkey, "data"), R.self_attr(pkey, "mac")])
+    plo = [o for o in func_outcomes(chk, plctx) if o[0] == "return"]
+    chk.decide(bool(plo) and all(o[3] == want_pl for o in plo), "K-PROV", "pair-unlock-derives-key-from-passphrase", plctx.func,
+               "every return of Pair.unlock_with_phrase is _decrypt_hmac(KDF(this call's passphrase), pair data, pair MAC name): "
+               "nothing remembered from an earlier call can be returned",
+               expected=S.show(want_pl)[:300], found=str([S.show(o[3])[:300] for o in plo]))
+    kkey = chk.prog.cls(REL, "KeySafe").key
+    want_un = ("call", ".unlock_with_phrase", (("iter", R.self_attr(kkey, "locators"), None), ("p", kctx.qual, 1)), ())
+    found_un = [x for o in rets for x in find(o[3], lambda x: x[0] == "call" and x[1].endswith("unlock_with_phrase"))]
+    chk.decide(bool(found_un) and all(x == want_un for x in found_un), "K-PROV", "unseal-passes-the-passphrase-to-each-locator", kctx.func,
+               "the key returned by unseal_with_phrase comes from locator.unlock_with_phrase(passphrase) on a locator of this key safe",
+               expected=S.show(want_un)[:200], found=str([S.show(x)[:200] for x in found_un]))
+    vkey = chk.prog.cls(REL, "VMX").key
+    want_vs = ("call", ".unseal_with_phrase", (S.call(f"{REL}::KeySafe.from_text", [("cls", kkey), ("sub", R.self_attr(vkey, "attr"), S.C("encryption.keysafe"))]),
+                                               ("p", vctx.qual, 1)), ())
+    found_vs = [R.expr(vctx, n, vctx.cfg.node_for(n)) for n in uns]
+    chk.decide(bool(found_vs) and all(x == want_vs for x in found_vs), "K-PROV", "vmx-unseals-the-current-keysafe-with-the-passphrase", uns[0] if uns else vctx.func,
+               "unlock parses the key safe text currently in the dictionary and unseals it with this call's passphrase",
+               expected=S.show(want_vs)[:300], found=str([S.show(x)[:300] for x in found_vs]))
+    for qn in ("Pair.unlock_with_phrase", "Pair._unlock", "Pair.unlock", "Pair.has_phrase", "KeySafe.unseal_with_phrase", "Phrase.unwrap"):
+        fctx = chk.func(REL, qn)
+        st = self_stores(fctx.func)
+        chk.decide(not st, "K-PURE", f"unlock-path-keeps-no-state:{qn}", st[0][0] if st else fctx.func,
+                   "no store to the object on the unlock path: an attempt cannot be answered from an earlier one" if not st
+                   else f"{st[0][1]}: a later unlock attempt can observe an earlier one")
+    vst = [(n, d) for n, d in self_stores(vctx.func) if not (upd and n is upd[0])]
+    chk.decide(not vst, "K-PURE", "unlock-path-keeps-no-state:VMX.unlock_with_phrase", vst[0][0] if vst else vctx.func,
+               "apart from the final update of the visible dictionary nothing is stored on the VMX object" if not vst
+               else f"{vst[0][1]}: state kept between unlock attempts (a later attempt can be answered from a stale key safe)")
+    chk.require("K-PURE", 7)
+    chk.require("K-PROV", 13)
     chk.require("K-PATH", 3)
     chk.require("K-CONST", 4)
+
+
+def _subst(t, old, new):
+    if t == old:
+        return new
+    if isinstance(t, tuple):
+        return tuple(_subst(x, old, new) for x in t)
+    return t
